@@ -71,6 +71,24 @@ Proof.
 Qed.
 Print Assumptions C02_refuted_corrupt.
 
+(* the prune-vs-lookup class (seeded change C02/m2): when the lookup is split into a first SELECT that
+   decides hit/miss and a second SELECT whose single row is unpacked at once, another caller's start-up
+   prune of an expired entry (40 days old, expiration 30) between the two makes the call fail; such a
+   program is rejected by the side condition *)
+Definition prog_split : prog :=
+  [ IS SConnect;
+    IIf CInit [ IS (SBegin false); IS (SWrite WPrune); IS SCommit ] [];
+    IS (SBegin false); IS (SRead RLookup r_hit); IS SCommit;
+    IIf (CReg r_hit) [ IS (SRead RFetch 7) ] [];
+    IS SClose ].
+Theorem C02_refuted_split_lookup :
+  side_ok prog_split = false /\
+  exists sched,
+    In (Err ENoRow) (map t_st (c_thrs (fst (run sched
+      (init_cfg prog_split (Some (Db TGood TGood true [(0, 40)])) [Par 0 false false true 30; Par 1 true false true 30]))))).
+Proof. split; [vm_compute; reflexivity|]. exists [0;0;0;0;1;1;1;1;0]. vm_compute. auto. Qed.
+Print Assumptions C02_refuted_split_lookup.
+
 (* the abstract lock layer: a granted or blocked operation never creates a second connection at
    RESERVED or above, and SQLITE_BUSY-without-waiting is only ever the answer to a SHARED holder
    that asks to write *)
